@@ -153,6 +153,8 @@ pub enum Sty {
     Lit,
     Em,
     Inv,
+    /// a nested document (`Doc::doc`) holding the fragment as a literal
+    Nested,
 }
 /// A styled multi fragment document
 #[derive(Clone, Debug, PartialEq, Eq, Hash, Serialize, Deserialize, Default)]
@@ -176,6 +178,11 @@ impl DocSpec {
                 Sty::Lit => d.literal(t),
                 Sty::Em => d.emphasis(t),
                 Sty::Inv => d.invalid(t),
+                Sty::Nested => {
+                    let mut inner = Doc::default();
+                    inner.literal(t);
+                    d.doc(&inner);
+                }
             }
         }
         d
